@@ -47,6 +47,7 @@ type eStats struct {
 	failedWrites     int
 	readErrors       int
 	scansUnderFaults int
+	commitRetries    int
 	damageChecked    bool
 	damageDetected   bool
 	fileChecks       int
@@ -505,6 +506,15 @@ func runFaultsOpts(c *ECase, strict, files bool) (st eStats, err error) {
 					st.hung = true
 					return st, nil
 				}
+				// a failed Put may be repeated (same key, same value: harmless whether or not the
+				// failed call was applied); every other bigtr does that, twice at most
+				for retry := 0; werr != nil && i%2 == 0 && retry < 2; retry++ {
+					st.commitRetries++
+					if !ctl.do("Transaction.Put (retry)", func() { werr = t.Put(k, val, nil) }) {
+						st.hung = true
+						return st, nil
+					}
+				}
 				if werr != nil {
 					failed = true
 					break
@@ -517,6 +527,13 @@ func runFaultsOpts(c *ECase, strict, files bool) (st eStats, err error) {
 				if !ctl.do("Transaction.Commit", func() { cerr = t.Commit() }) {
 					st.hung = true
 					return st, nil
+				}
+				for retry := 0; cerr != nil && i%2 == 0 && retry < 2; retry++ {
+					st.commitRetries++
+					if !ctl.do("Transaction.Commit (retry)", func() { cerr = t.Commit() }) {
+						st.hung = true
+						return st, nil
+					}
 				}
 				if cerr == nil {
 					b.Mandatory = true
@@ -569,6 +586,15 @@ func runFaultsOpts(c *ECase, strict, files bool) (st eStats, err error) {
 				if !ctl.do("Transaction.Commit", func() { cerr = t.Commit() }) {
 					st.hung = true
 					return st, nil
+				}
+				// "If error is not nil, then the transaction is not committed, it can then either
+				// be retried or discarded": every other failed Commit is retried (twice at most)
+				for retry := 0; cerr != nil && i%2 == 0 && retry < 2; retry++ {
+					st.commitRetries++
+					if !ctl.do("Transaction.Commit (retry)", func() { cerr = t.Commit() }) {
+						st.hung = true
+						return st, nil
+					}
 				}
 				if cerr == nil {
 					trBatch.Mandatory = true
@@ -1067,6 +1093,9 @@ func TestC08(t *testing.T) {
 		}
 		if st.readErrors > 0 {
 			cl = append(cl, "read-returned-error")
+		}
+		if st.commitRetries > 0 {
+			cl = append(cl, "failed-commit-retried")
 		}
 		if st.scansUnderFaults > 0 {
 			cl = append(cl, "scan-while-faults-armed")
